@@ -45,6 +45,19 @@ def main():
     assert R.has_boundary_fraction((4,), [(1, 1)]) and not R.has_boundary_fraction((1,), [(1, 1)])
     assert not R.has_boundary_fraction((4, 3), [(0, 0), (0, 0)])
 
+    # grid partitions with arbitrary boundary cells (docstring of boundary_cell_fractions:
+    # grid [0, 1] in [0, 1.5] -> fractions 0.5 and 1; grid [-1, 0, 2]... is non-uniform, so the
+    # second literal is the seeded example grid 0, .25, ..., 1 in [-0.05, 1.3])
+    assert R.grid_axis_weights(0, 1, 2, 0, 1.5) == [Fr(1, 2), 1]
+    w = R.grid_axis_weights(0, Fr(1, 4), 5, Fr(-1, 20), Fr(13, 10))
+    assert w == [Fr(7, 40), Fr(1, 4), Fr(1, 4), Fr(1, 4), Fr(17, 40)] and sum(w) == Fr(27, 20)
+    assert R.grid_fractions([0], [Fr(1, 4)], (5,), [Fr(-1, 20)], [Fr(13, 10)]) == \
+        [(Fr(7, 10), Fr(17, 10))]
+    assert R.grid_axis_weights(0, 0.5, 3, -0.125, 1.625) == [Fr(3, 8), Fr(1, 2), Fr(7, 8)]
+    assert R.grid_axis_weights(0, 0, 1, -0.25, 1) == [Fr(5, 4)]
+    assert R.grid_axis_weights(0, 2, 2, 0, 2) == [1, 1]
+    Wg = R.grid_weights([0, 0], [0.5, 0], (3, 1), [-0.125, -1], [1.625, 0.5])
+    assert Wg.tolist() == [[0.5625], [0.75], [1.3125]] and Wg.sum() == 1.75 * 1.5
     # inner: linear in the first argument, conjugate linear in the second
     W = [2.0, 0.5]
     assert R.inner_w(W, [1, 2], [3, -1]) == 2 * 3 - 0.5 * 2
